@@ -960,6 +960,12 @@ def execute_c08(scen):
                       method=name, exc=type(e).__name__, toggled=True)
                     break
         except Exception as e:  # noqa
+            if scen["metric"] == "corr" and isinstance(e, KeyError):
+                # (a randomized search with a RandomState instance draws other candidates on
+                # its second fit; when none of them has a defined score nothing is demanded)
+                res.probe("all_scores_undefined")
+                res.digest = digest.hexdigest()[:16]
+                return res
             v("fit_raised", "fit after set_params(refit=False) raised %s: %s" % (
                 type(e).__name__, str(e)[:150]), exc=type(e).__name__)
     res.digest = digest.hexdigest()[:16]
